@@ -66,6 +66,8 @@ impl<const KEYSIZE: usize> Key<KEYSIZE> {
     let rng = SystemRandom::new();
     let mut buf = [0u8; KEYSIZE];
     rng.fill(&mut buf)?;
+    #[cfg(rusty_paseto_verif)]
+    crate::verif_hooks::entropy(&mut buf, "try_new_random")?;
     Ok(Self(buf))
   }
 }
